@@ -116,6 +116,17 @@ def run (op : String) (a : Json) : Option (Except String Json) :=
   | "names.is_word" => some do
       let s ← getStr a "s"
       pure <| ok (jList jBool (s.map u.isWord))
+  | "names.wrapper_fields" => some do
+      -- CreateWrapperFields.process on one class: per attr the source attr it is swapped with (or null)
+      let xs ← getArr a "attrs"
+      let cands ← xs.mapM (fun j => do
+        let att ← getAttr j
+        let src ← match j.getObjVal? "src" with
+          | .ok Json.null => pure none
+          | .ok sj => pure (some (← getAttr sj))
+          | .error _ => pure none
+        pure (att, src))
+      pure <| ok (jList jStr ((createWrapperFields (← getBool a "enabled") cands).map (·.name)))
   | "names.rename_attrs" => some do
       let xs ← getArr a "attrs"
       let attrs ← xs.mapM getAttr
